@@ -453,6 +453,44 @@ func c10(c *wk.Ctx) {
 			r.Violationf("C10|malformed-accepted|class=non-decimal-number", map[string]interface{}{"input": fmt.Sprintf("%q", lit), "shape": sh}, "input %q (a number in a syntax RESP does not have) decoded to a value %q", lit, trunc(refresp.Encode(dv), 120))
 		}
 	}
+	// truncations of large values: a command whose bulk arguments run to tens of kilobytes of text (CR LF inside the
+	// payload), cut directly after an inner CR LF, at random places and just before its end: a strict prefix of one value
+	// is incomplete, whatever it happens to end in
+	for li, size := range []int{300, 5000, 17000, 40000, 70000, 140000} {
+		lr := rng.At(uint64(0x7B16 + li))
+		payload := make([]byte, 0, size+64)
+		for len(payload) < size {
+			payload = append(payload, []byte(fmt.Sprintf("line %d of a script or text value#%x", len(payload), lr.U64()))...)
+			payload = append(payload, '\r', '\n')
+		}
+		payload = payload[:size]
+		v := refresp.V{K: refresp.Arr, A: []refresp.V{{K: refresp.Bulk, S: []byte("SET")}, {K: refresp.Bulk, S: []byte("key")}, {K: refresp.Bulk, S: payload}}}
+		base := refresp.Encode(v)
+		var cuts []int
+		for p := 40; p < len(base)-2; p++ {
+			if base[p-2] == '\r' && base[p-1] == '\n' && lr.Chance(1, 1+size/2000) {
+				cuts = append(cuts, p)
+			}
+		}
+		for k := 0; k < 12; k++ {
+			cuts = append(cuts, lr.Range(1, len(base)-1))
+		}
+		cuts = append(cuts, len(base)-1, len(base)-2, len(base)-3)
+		for _, p := range cuts {
+			b := base[:p]
+			r.Count("large_value_truncations", 1)
+			if ref := refresp.Decode(b); ref.Class != refresp.MustError {
+				r.Inconcl(fmt.Sprintf("reference codec does not classify a %d-byte prefix of a %d-byte command as malformed", p, len(base)))
+				continue
+			}
+			dv, _, derr, pan := toolDecode(b, 4096)
+			if pan == "" && derr == nil {
+				r.Violationf("C10|malformed-accepted|class=truncated-large-value", map[string]interface{}{"bulk_bytes": size, "cut_at": p, "input_tail": fmt.Sprintf("%q", trunc(b[maxI(0, p-40):], 60))}, "a command with a %d-byte bulk argument cut after %d of %d bytes decoded to a value (%d bytes when re-encoded)", size, p, len(base), len(refresp.Encode(dv)))
+				break
+			}
+		}
+		r.Case(fmt.Sprintf("large-trunc|%d", size))
+	}
 	r.Count("mutants_valid_by_reference", nValid)
 	r.Count("mutants_must_error", nMust)
 	r.Count("mutants_unclassified_skipped", nUncl)
@@ -562,6 +600,13 @@ func c10stream(raw json.RawMessage, scratch string) {
 func trunc(b []byte, n int) []byte {
 	if len(b) > n {
 		return b[:n]
+	}
+	return b
+}
+
+func maxI(a, b int) int {
+	if a > b {
+		return a
 	}
 	return b
 }
